@@ -48,12 +48,14 @@ pub enum OpK {
     IfMMElse,
     /// RandomUniform-like source with no inputs (only used by C04); shape [2,2]
     Random,
+    /// RandomUniformLike: one input (only its shape matters), non-deterministic output (only used by C04)
+    RandomLike,
 }
 
 impl OpK {
     pub fn arity(self) -> usize {
         match self {
-            OpK::Relu | OpK::Identity | OpK::Transpose | OpK::Split | OpK::IfMMThen | OpK::IfMMElse => 1,
+            OpK::Relu | OpK::Identity | OpK::Transpose | OpK::Split | OpK::IfMMThen | OpK::IfMMElse | OpK::RandomLike => 1,
             OpK::Random => 0,
             _ => 2,
         }
@@ -77,12 +79,13 @@ impl OpK {
             OpK::IfMMThen => "IfMMThen",
             OpK::IfMMElse => "IfMMElse",
             OpK::Random => "RandomUniform",
+            OpK::RandomLike => "RandomUniformLike",
         }
     }
     pub fn from_name(s: &str) -> OpK {
         for k in [
             OpK::Relu, OpK::Identity, OpK::Transpose, OpK::Add, OpK::Sub, OpK::Mul, OpK::MatMul, OpK::Concat,
-            OpK::Split, OpK::IfAdd, OpK::IfSub, OpK::IfMMThen, OpK::IfMMElse, OpK::Random,
+            OpK::Split, OpK::IfAdd, OpK::IfSub, OpK::IfMMThen, OpK::IfMMElse, OpK::Random, OpK::RandomLike,
         ] {
             if k.name() == s {
                 return k;
@@ -319,7 +322,7 @@ pub fn eval_op(kind: OpK, ins: &[NArr]) -> Result<Vec<NArr>, String> {
         }
         OpK::IfMMThen => eval_op(OpK::MatMul, &[ins[0].clone(), branch_weight(true)]),
         OpK::IfMMElse => eval_op(OpK::MatMul, &[ins[0].clone(), branch_weight(false)]),
-        OpK::Random => Err("random has no reference value".into()),
+        OpK::Random | OpK::RandomLike => Err("random has no reference value".into()),
     }
 }
 
@@ -440,6 +443,7 @@ pub fn to_onnx(p: &Prog, fixed_shapes: bool) -> Vec<u8> {
                 .attr("shape", onnx::Attr::Ints(vec![2, 2]))
                 .attr("low", onnx::Attr::Float(1.0))
                 .attr("high", onnx::Attr::Float(2.0)),
+            OpK::RandomLike => onnx::Node::new("RandomUniformLike", &ins_ref, &outs_ref).attr("low", onnx::Attr::Float(1.0)).attr("high", onnx::Attr::Float(2.0)),
             k => onnx::Node::new(k.name(), &ins_ref, &outs_ref),
         };
         g.nodes.push(node.named(&nname));
